@@ -235,6 +235,23 @@ func ruleGlobals(c *Ctx, rule string, roots []*ssa.Function, rootDesc string) {
 	for _, g := range globals {
 		ob := r.Ob(rule, "global "+shortName(g.Pkg.Pkg.Path())+"."+g.Name(), c.pos(g.Pos()))
 		as := acc[g]
+		// a channel or a sync.Pool at package level hands objects from one call to another: whether an object that was released is
+		// still used by the call that released it (or was released twice) is a question about object lifetimes that this ownership
+		// argument does not answer
+		isPool := false
+		if nt, ok := deref(g.Type()).(*types.Named); ok && nt.Obj().Pkg() != nil && nt.Obj().Pkg().Path() == "sync" && nt.Obj().Name() == "Pool" {
+			isPool = true
+		}
+		if ch, ok := deref(g.Type()).Underlying().(*types.Chan); ok || isPool {
+			if len(as) > 0 {
+				what := "sync.Pool"
+				if ch != nil {
+					what = "channel of " + ch.Elem().String()
+				}
+				ob.Und(fmt.Sprintf("package-level %s used by %d reachable access(es): objects travel between concurrent calls through it; that a released object is not used again (or released twice) is not decided", what, len(as)))
+				continue
+			}
+		}
 		if declaredIn(deref(g.Type()), "sync", "sync/atomic") {
 			ob.OK("synchronisation object of package sync: its methods are the synchronisation")
 			continue
